@@ -35,6 +35,9 @@ TAG_FAMILIES = [["Users", "users", "USERS", "user-s", "Users_"],
                 ["DataSources", "data_sources", "data-sources", "datasources", "Data Sources", "dataSources"],
                 ["x"], ["type"], ["1st"], ["admin.ops", "AdminOps", "admin_ops"], ["default", "Default"]]
 ODD_TAGS = ["-", "", "café", "caf", "日本", "中国"]
+# response-key shapes: explicit codes, `default`, and the OpenAPI range keys 2XX/4XX/5XX, alone and mixed
+RESP_KEYSETS = [["200"], ["200", "404"], ["201", "default"], ["default"], ["2XX"], ["2XX", "4XX"], ["200", "5XX", "default"],
+                ["4XX", "default"], ["204", "4XX", "5XX"], ["2XX", "default"]]
 OPID_FAMILIES = [["fooBar", "foo_bar", "FooBar", "foo-bar"], ["foo", "foo", "foo_2", "foo_2_2", "foo_3"],
                  ["listUsers", "getUser", "createUser", "deleteUser"], ["class", "2fa", "list", "get"]]
 
@@ -441,7 +444,7 @@ def gen_case(rng, malformed: bool = False, odd: bool = False) -> dict:
         for m in p["methods"]:
             method = m.upper() if rng.random() < 0.05 else m
             it: dict[str, Any] = {"method": method, "opid": opids[i], "tags": gen_tags(rng, odd),
-                                  "resp": [[c, True] for c in rng.choice([["200"], ["200", "404"], ["201", "default"], ["default"]])],
+                                  "resp": [[c, True] for c in rng.choice(RESP_KEYSETS)],
                                   "params": ["ok"] * rng.choice([0, 0, 1, 2])}
             i += 1
             if malformed and rng.random() < 0.35:
@@ -471,13 +474,17 @@ def enum_small() -> list[dict]:
     out = []
     tagsets = [None, [], ["Users"], ["Users", "x"], ["Users", "users"], ["data_sources", "DataSources"]]
     idsets = [(None, None), ("foo", "foo"), ("fooBar", "foo_bar"), ("read_a_a_get", "b")]
+    i = 0
     for st in STRATEGIES:
         for rd in RENDERS:
             for tg in tagsets:
                 for a, b in idsets:
+                    ka = RESP_KEYSETS[i % len(RESP_KEYSETS)]
+                    kb = RESP_KEYSETS[(i // 3 + 3) % len(RESP_KEYSETS)]
+                    i += 1
                     out.append({"strategy": st, "render": rd, "paths": [
-                        {"path": "/a", "items": [{"method": "get", "opid": a, "tags": tg, "resp": [["200", True]], "params": []},
-                                                 {"method": "post", "opid": b, "tags": ["users"], "resp": [["default", True]], "params": []}]}]})
+                        {"path": "/a", "items": [{"method": "get", "opid": a, "tags": tg, "resp": [[k, True] for k in ka], "params": []},
+                                                 {"method": "post", "opid": b, "tags": ["users"], "resp": [[k, True] for k in kb], "params": []}]}]})
     return out
 
 
